@@ -1005,3 +1005,41 @@ Lemma msg_unknown m : m_name m = None ->
 Proof. intros H. unfold validate_message_errors, validate_message_log, v_message. now rewrite H. Qed.
 
 End MsgLevels.
+
+(* ================================================================================================ *)
+(* the rearranged tables of the correspondence run answer every lookup like the generated ones      *)
+
+Lemma alookup_app {B} k (x y : list (str * B)) :
+  slookup k (x ++ y) = match slookup k x with Some v => Some v | None => slookup k y end.
+Proof.
+  unfold slookup. induction x as [|[k' v] x IH]; cbn [app alookup]; [reflexivity|].
+  destruct (leqb beqb k k'); [reflexivity | exact IH].
+Qed.
+
+Lemma alookup_filter {B} (P : str -> bool) k (l : list (str * B)) :
+  slookup k (filter (fun p => P (fst p)) l) =
+  match slookup k l with Some v => if P k then Some v else None | None => None end.
+Proof.
+  unfold slookup. induction l as [|[k' v] l IH]; cbn [filter alookup fst]; [reflexivity|].
+  change (leqb beqb k k') with (streqb k k').
+  destruct (streqb_spec k k') as [E|N].
+  - subst k'. destruct (P k) eqn:EP; cbn [alookup].
+    + change (leqb beqb k k) with (streqb k k). now rewrite streqb_refl.
+    + rewrite IH. destruct (alookup beqb k l); reflexivity.
+  - destruct (P k'); cbn [alookup]; [|exact IH].
+    change (leqb beqb k k') with (streqb k k'). destruct (streqb_spec k k') as [E'|_]; [contradiction | exact IH].
+Qed.
+
+Lemma slookup_front {B} (P : str -> bool) (l : list (str * B)) k : slookup k (front P l) = slookup k l.
+Proof.
+  unfold front. rewrite alookup_app, alookup_filter.
+  destruct (slookup k l) as [v|]; [destruct (P k); reflexivity | reflexivity].
+Qed.
+
+Lemma front_tables_lookups segs dts t :
+  let t' := front_tables segs dts t in
+  t_version t' = t_version t /\ t_base_datatypes t' = t_base_datatypes t /\ t_structs t' = t_structs t /\
+  t_messages t' = t_messages t /\ t_groups t' = t_groups t /\ t_segments t' = t_segments t /\
+  (forall k, slookup k (t_fields t') = slookup k (t_fields t)) /\
+  (forall k, slookup k (t_components t') = slookup k (t_components t)).
+Proof. cbn. repeat split; intros k; apply slookup_front. Qed.
